@@ -33,6 +33,21 @@ from .sym import FV, SBool, SInt, SMap, SObj, SStr
 
 DEPTH = 4
 
+# the fields the representation invariants speak about (contracts/cvss{2,3,4}.py: V2/V3/V4.obj)
+KNOWN_FIELDS = {
+    "CVSS2": frozenset(["vector", "metrics", "base_score", "temporal_score", "environmental_score"]),
+    "CVSS3": frozenset(["vector", "minor_version", "metrics", "original_metrics", "missing_metrics", "scope", "modified_scope",
+                        "base_score", "temporal_score", "environmental_score", "isc_base", "isc", "esc",
+                        "modified_isc_base", "modified_isc", "modified_esc"]),
+    "CVSS4": frozenset(["vector", "metrics", "original_metrics", "missing_metrics", "base_score", "severity"]),
+}
+
+
+def is_further_field(obj, attr):
+    """an attribute of a CVSS object that no representation invariant mentions"""
+    known = KNOWN_FIELDS.get(getattr(getattr(obj, "cls", None), "name", None))
+    return known is not None and attr not in known
+
 
 class _Stop(Exception):
     pass
@@ -115,6 +130,10 @@ def immutable(v, depth=0):
         return True
     if isinstance(v, tuple) and depth < 5:
         return all(immutable(x, depth + 1) for x in v)
+    from .models import GTuple
+
+    if isinstance(v, GTuple) and depth < 5:
+        return all(immutable(x, depth + 1) for _, x in v.items)
     return False
 
 
@@ -148,7 +167,11 @@ def sig(v, depth=0):
         return (type(v).__name__, _zkey(v.z))
     if isinstance(v, SMap):
         return ("smap", _zkey(v.dom), _zkey(v.val))
+    from .interp import GList
     from .models import OneShot
+
+    if isinstance(v, GList):
+        return ("glist",) + tuple((_zkey(g), sig(x, depth + 1)) for g, x in v.items)
 
     if isinstance(v, OneShot):
         return ("oneshot", sig(v.items, depth + 1))
@@ -209,10 +232,12 @@ def attach(ctx, o, view_attr, view, known, stop_after, parsed_fields, accessors=
         if mode["harvest"] and recv is mode["target"] and len(eng_.call_stack) == 1:
             try:
                 if name == "parse_vector":
+                    if name in trans:
+                        raise Unsupported("parse_vector mentions the further fields %s: their value after parsing is not derived" % sorted(extras))
                     for k, val in parsed_fields().items():
                         recv.fields[k] = val
                     return True, None
-                if name == "check_mandatory":
+                if name == "check_mandatory" and name not in trans:
                     return True, None
                 return _dispatch(eng_, st_, f, args, kwargs, name)
             finally:
